@@ -368,6 +368,14 @@ class Result:
             self.samples.append(item)
 
     def violation(self, kind, what, payload, cls=None, found_input=True):
+        # see obligation(): incomplete line coverage is recorded, not alarmed
+        toc = payload.get('theorem_or_correspondence') if isinstance(
+            payload, dict) else None
+        if isinstance(toc, str) and toc.lower() in ('coverage',
+                                                    'line coverage'):
+            self.extra.setdefault('line_coverage', []).append(
+                {'what': str(what)[:600], 'complete': False})
+            return
         self.violations.append({'kind': kind, 'what': what, 'class': cls,
                                 'payload': payload,
                                 'found_input': found_input})
